@@ -14,11 +14,22 @@ PROP = "C15"; LEVEL = "exploration"
 
 
 def rect(g, p):
+    """finite rectangle with moderate exponents: the exact corner arithmetic (products, quotients, ninth powers) is evaluated
+    with exact sums, so exponent spreads of thousands of bits would only cost time"""
+    def clamp(t):
+        if not t[1]:
+            return t
+        e = max(-50, min(50, t[2] + t[3])) - t[3]
+        return (t[0], t[1], e, t[3])
     def fin_iv():
         while True:
             v = c14.interval(g, p)
             if v[0] not in (gen.FNINF,) and v[1] not in (gen.FINF,):
-                return v
+                a, b = clamp(v[0]), clamp(v[1])
+                from fractions import Fraction as Fr
+                va = Fr((-1) ** a[0] * a[1]) * Fr(2) ** a[2] if a[1] else Fr(0)
+                vb = Fr((-1) ** b[0] * b[1]) * Fr(2) ** b[2] if b[1] else Fr(0)
+                return (a, b) if va <= vb else (b, a)
     return (fin_iv(), fin_iv())
 
 
@@ -34,7 +45,7 @@ def main():
     g = gen.G(chk.seed * 1000003 + 15)
     r = g.r
     events, meta = [], {}
-    for i in range(chk.pick(350, 40000)):
+    for i in range(chk.pick(500, 40000)):
         p = r.choice([r.randint(2, 8), 10, 24, 53, 100])
         f = r.choice(["add", "sub", "mul", "mul", "div", "pow", "abs"])
         z, w = rect(g, p), rect(g, p)
